@@ -246,7 +246,8 @@ def _strategy(tier):
             lambda v: _place(v[0], "%s=%s" % (v[1], _enc(v[2], v[3]))))
     nested = st.recursive(leaf, wrap, max_leaves=5)
     cache = st.tuples(st.sampled_from(["https://x.cdn.ampproject.org/c/s/", "http://bc.marfeel.com/", "bc.marfeelcache.com/amp/"]), nested).map("".join)
-    arbitrary = st.text("htps:/.?&=#%@[]u qlredictnxgoa0", max_size=24)
+    arbitrary = st.one_of(st.text("htps:/.?&=#%@[]u qlredictnxgoa0", max_size=24),
+                          st.lists(st.one_of(st.sampled_from(["http://", "?url=", "&u=", "%2F", "/", ".com", "=", "#"]), st.characters(blacklist_categories=("Cs",))), max_size=10).map("".join))
     return st.one_of(nested, nested, cache, arbitrary).map(lambda s: {"kind": "redirect", "s": s})
 
 
